@@ -164,7 +164,6 @@ def gen(repo):
         txt, names = definition(nm, w[key], ["g", "z", "alpha", "A", "PI", "sumW", "q2", "erfc", "erf"])
         lines.append(txt)
     lines.append("")
-    lines.append("Inductive axis := " + " | ".join("Ax_" + l for l in LABELS) + ".")
     lines.append("(* (subscripts of the operands, subscripts of the result, meaning of every operand axis) for each einsum of set_ewald_ion_ion, ewald_elec_ion, ewald_elec_elec *)")
     rows = []
     for s in sites:
@@ -176,9 +175,9 @@ def gen(repo):
     for i, r in enumerate(rows):
         head, comment = r.split(" (* ", 1)
         body += head + (";" if i + 1 < len(rows) else "") + " (* " + comment + "\n"
-    lines.append("Definition contraction_sites : list (list (list ascii) * list ascii * list (list axis)) := [\n" + body + "].")
+    lines.append("Definition contraction_sites : list site := [\n" + body + "].")
     header = ("(* GENERATED by /verif/translator/gen_ewald2d.py from /repo/pyqmc/observables/ewald2d.py on every run — do not edit. *)\n"
-              "From Coq Require Import Reals List Ascii.\nImport ListNotations.\nOpen Scope R_scope.\n\n")
+              "From Coq Require Import Reals List Ascii.\nFrom PyQMC Require Import base.Einsum.\nImport ListNotations.\nOpen Scope R_scope.\n\n")
     return header + "\n".join(lines) + "\n", sites
 
 
